@@ -68,7 +68,12 @@ def I7():
     )
 
 
-STRUCTS = dict(I1=I1, I2=I2, I3=I3, I4=I4, I6=I6, I7=I7)
+def I8():
+    """a compartment without databook entry whose framework default is 0 (it must start empty) next to a free one"""
+    return dict(name="I8", comps=[dict(name="a", default=50), dict(name="b", setup=False, default=0), dict(name="c", setup=False)], characs=[dict(name="alive", components="a,b,c", default=100)], pars=_rate(), transitions=_cyc(["a", "b", "c"]))
+
+
+STRUCTS = dict(I1=I1, I2=I2, I3=I3, I4=I4, I6=I6, I7=I7, I8=I8)
 _P = {}
 
 
@@ -94,6 +99,11 @@ def init_body(name, y_factors):
                 if not ts.has_data:
                     continue
                 frac = q in F.characs.index and isinstance(F.characs.at[q, "denominator"], str)
+                tbl = F.comps if q in F.comps.index else F.characs
+                if not isinstance(tbl.at[q, "databook page"], str):
+                    # not in the databook: the value is the framework default (0), not an input
+                    vals[q] = ts.assumption
+                    continue
                 ts.assumption = env.real("data|%s" % q, 0.0, 1.0 if frac else 1e6)
                 yf = myf = 1.0
                 if y_factors:
@@ -115,6 +125,9 @@ def init_body(name, y_factors):
 
         for cname, v in stocks.items():
             env.claim("stored_stock_nonneg|%s" % cname, env.ge(v, 0.0, 0), key="stock_nonneg")
+            if cname in F.comps.index and not isinstance(F.comps.at[cname, "databook page"], str) and F.comps.at[cname, "default value"] == 0:
+                # no databook entry and a framework default of 0: the compartment starts empty
+                env.claim("zero_default_compartment_starts_empty|%s" % cname, env.le(v, 1e-6, 0), key="zero_default")
         for q in setup:
             tot = 0.0
             for c in members(q):
